@@ -92,6 +92,7 @@ impl Pol {
             pending_writes: self.pend_w.iter().copied().collect::<BTreeSet<_>>(),
             pending_flushes: self.pend_f.iter().copied().collect::<BTreeSet<_>>(),
             deliver_on_flush: false,
+            gone_is_write_zero: false,
             cut_after: self.cut,
             flips: self.flips.clone(),
         }
@@ -146,6 +147,8 @@ enum Case {
     Subst { target: u8, src: Src, same_ids: bool, kd: u64, kl: u64 },
     /// rogue snow endpoint in `rogue_role` against real litep2p in the opposite role
     Rogue { rogue_is_dialer: bool, variant: String, kr: u64, kv: u64 },
+    /// honest session with a third party, then its payload replayed by a rogue (state carried between handshakes)
+    RogueHistory { rogue_is_dialer: bool, kr: u64, kv: u64 },
     /// dialed-peer expectation over loopback TCP
     Dialed { expectation: Dialed, kd: u64, kl: u64 },
 }
@@ -625,6 +628,11 @@ fn rogue_payload(variant: &str, c: &RogueCtx) -> Vec<u8> {
             &PublicKey::Ed25519(c.k_other.public()).to_protobuf_encoding(),
             &c.k_other.sign(&msg(c.other_static)),
         ),
+        // the third party itself: its own identity, its own static key, a correct proof
+        "honest_third_party" => both(
+            &PublicKey::Ed25519(c.k_other.public()).to_protobuf_encoding(),
+            &c.k_other.sign(&msg(c.static_pub)),
+        ),
         "sig_by_other_key" => both(&key, &c.k_other.sign(&msg(c.static_pub))),
         "impersonate_other_key" => both(&PublicKey::Ed25519(c.k_other.public()).to_protobuf_encoding(), &good),
         "sig_no_domain" => both(&key, &c.kr.sign(c.static_pub)),
@@ -696,11 +704,26 @@ async fn recv_frame(io: &mut End) -> std::io::Result<Vec<u8>> {
     Ok(body)
 }
 
-async fn rogue_task(mut io: End, rogue_is_dialer: bool, variant: String, kr: Keypair, k_other: Keypair, out: Arc<Mutex<RogueOut>>) {
+async fn rogue_task(io: End, rogue_is_dialer: bool, variant: String, kr: Keypair, k_other: Keypair, out: Arc<Mutex<RogueOut>>) {
+    rogue_task_with(io, rogue_is_dialer, variant, kr, k_other, out, None).await
+}
+
+/// `fixed` = (private, public) Noise static key of a third party V. Variant `honest_third_party` plays V itself (that
+/// static key, identity `k_other`, a correct payload); every other variant then uses V's public key as the "other
+/// session's static key", so that `sig_replayed_third_party` is V's genuine payload replayed verbatim.
+async fn rogue_task_with(mut io: End, rogue_is_dialer: bool, variant: String, kr: Keypair, k_other: Keypair, out: Arc<Mutex<RogueOut>>, fixed: Option<(Vec<u8>, Vec<u8>)>) {
     let r: Result<(), String> = async {
         let builder = snow::Builder::with_resolver(NOISE_PARAMS.parse().unwrap(), Box::new(NoiseResolver));
-        let kp = builder.generate_keypair().map_err(|e| format!("{e:?}"))?;
-        let other_static = builder.generate_keypair().map_err(|e| format!("{e:?}"))?.public;
+        let mut kp = builder.generate_keypair().map_err(|e| format!("{e:?}"))?;
+        let mut other_static = builder.generate_keypair().map_err(|e| format!("{e:?}"))?.public;
+        if let Some((private, public)) = &fixed {
+            if variant == "honest_third_party" {
+                kp.private = private.clone();
+                kp.public = public.clone();
+            } else {
+                other_static = public.clone();
+            }
+        }
         let eph_like = builder.generate_keypair().map_err(|e| format!("{e:?}"))?.public;
         let builder = builder.local_private_key(&kp.private);
         let mut hs = if rogue_is_dialer { builder.build_initiator() } else { builder.build_responder() }
@@ -738,6 +761,61 @@ async fn rogue_task(mut io: End, rogue_is_dialer: bool, variant: String, kr: Key
     if let Err(e) = r {
         out.lock().error = Some(e);
     }
+}
+
+/// History: the node under test first completes an honest handshake with a third party V (which, like rust-libp2p and
+/// go-libp2p nodes, keeps one Noise static key for all its connections and therefore shows the same identity payload to
+/// everybody); then a rogue with its own static key replays V's payload verbatim. What was verified for one session
+/// must not be taken as verified for another: the second handshake has to fail.
+fn run_rogue_history(rogue_is_dialer: bool, kr: u64, kv: u64) -> CaseResult {
+    let role = if rogue_is_dialer { "dialer" } else { "listener" };
+    let input = format!("rogue-history role={role} kr={kr} kv={kv}");
+    let mut out = CaseResult { evaluations: 2, ..Default::default() };
+    let rt = driver::runtime(1);
+    let (first, second, rogue2) = rt.block_on(async {
+        let builder = snow::Builder::with_resolver(NOISE_PARAMS.parse().unwrap(), Box::new(NoiseResolver));
+        let v_static = builder.generate_keypair().expect("static key of the third party");
+        let fixed = Some((v_static.private.clone(), v_static.public.clone()));
+        let mut results = Vec::new();
+        let mut last_rogue = RogueOut::default();
+        for variant in ["honest_third_party", "sig_replayed_third_party"] {
+            let (a, b, _h1, _h2) = pipe::duplex(Policy::default(), Policy::default());
+            let (sv, late) = (new_slot(), Arc::new(Mutex::new(false)));
+            let ro = Arc::new(Mutex::new(RogueOut::default()));
+            let mut d = driver::Driver::new();
+            let (kr_k, ko_k) = (util::keypair(kr), util::keypair(kr + 1000));
+            if rogue_is_dialer {
+                d.spawn("peer", rogue_task_with(a, true, variant.to_string(), kr_k, ko_k, ro.clone(), fixed.clone()));
+                spawn_real(&mut d, "victim", b, util::keypair(kv), Role::Listener, sv.clone(), late.clone());
+            } else {
+                spawn_real(&mut d, "victim", a, util::keypair(kv), Role::Dialer, sv.clone(), late.clone());
+                d.spawn("peer", rogue_task_with(b, false, variant.to_string(), kr_k, ko_k, ro.clone(), fixed.clone()));
+            }
+            let _ = drive(&mut d, &late).await;
+            results.push(sv.lock().clone());
+            last_rogue = ro.lock().clone();
+        }
+        let second = results.pop().unwrap();
+        let first = results.pop().unwrap();
+        (first, second, last_rogue)
+    });
+    let third_party = util::peer(kr + 1000);
+    out.nontrivial = true;
+    out.summary = format!("{input}: honest session with the third party -> {}; replay of its payload by a rogue with another static key -> {} (rogue noise session finished: {})", first.show(), second.show(), rogue2.noise_finished);
+    match &first.res {
+        Some(Ok(p)) if *p == third_party => {}
+        _ => {
+            out.violations.push(("rogue-history/honest-third-party-rejected".into(), out.summary.clone()));
+            return out;
+        }
+    }
+    if let Some(Ok(p)) = &second.res {
+        out.violations.push((
+            "rogue/accepted/replayed-payload-after-honest-session".into(),
+            format!("{}: connection reported for {p} although the rogue holds neither that identity key nor the static key the payload was signed for", out.summary),
+        ));
+    }
+    out
 }
 
 fn run_rogue(rogue_is_dialer: bool, variant: &str, kr: u64, kv: u64, len1: usize) -> CaseResult {
@@ -903,6 +981,7 @@ fn case_sub(c: &Case) -> &str {
         Case::Pair { sub, .. } => sub,
         Case::Subst { .. } => "subst",
         Case::Rogue { .. } => "rogue",
+        Case::RogueHistory { .. } => "rogue_history",
         Case::Dialed { .. } => "dialed",
     }
 }
@@ -920,6 +999,7 @@ fn run_case_inner(c: &Case, len1: usize) -> CaseResult {
         }
         Case::Subst { target, src, same_ids, kd, kl } => run_subst(*target, *src, *same_ids, *kd, *kl),
         Case::Rogue { rogue_is_dialer, variant, kr, kv } => run_rogue(*rogue_is_dialer, variant, *kr, *kv, len1),
+        Case::RogueHistory { rogue_is_dialer, kr, kv } => run_rogue_history(*rogue_is_dialer, *kr, *kv),
         Case::Dialed { expectation, kd, kl } => run_dialed(*expectation, *kd, *kl),
     }
 }
@@ -1071,6 +1151,13 @@ fn enumerate(ctx: &Ctx, shape: &Shape, shape_c1: &Shape) -> (Vec<Case>, Bounds) 
         }
     }
 
+    // (e') rogue with history
+    for rogue_is_dialer in [true, false] {
+        for (kr, kv) in [(11u64, 12u64), (13, 14)] {
+            cases.push(Case::RogueHistory { rogue_is_dialer, kr, kv });
+        }
+    }
+
     // (f) dialed-peer expectation
     for (kd, kl) in [(1u64, 2u64), (3, 4)] {
         for expectation in [Dialed::None, Dialed::Actual, Dialed::Other] {
@@ -1179,7 +1266,7 @@ pub fn run(ctx: &mut Ctx) {
             let mut probe = Ctx::new(ctx.id, ctx.tier, ctx.seed, ctx.level);
             let fake = Shape { len: [len1, 0, 0], ops: [(0, 0, 0); 2] };
             let (cases, _) = enumerate(&mut probe, &fake, &fake);
-            let cases: Vec<Case> = cases.into_iter().filter(|c| matches!(c, Case::Rogue { .. } | Case::Dialed { .. })).collect();
+            let cases: Vec<Case> = cases.into_iter().filter(|c| matches!(c, Case::Rogue { .. } | Case::RogueHistory { .. } | Case::Dialed { .. })).collect();
             let results = run_all(&cases, len1);
             let mut nontrivial = 0u64;
             for (c, r) in cases.iter().zip(results.iter()) {
